@@ -192,6 +192,19 @@ func TestVerifC17Ingest(t *testing.T) {
 		Stat().Reset()
 		rec.Count("evaluations", 1)
 	}
+	// the detector's redis accepts the announcement and does not answer (overloaded, or a half-dead connection): whatever
+	// the station prints about the publish that did not complete, it must not print the message it tried to send
+	fr.StallPublish.Store(true)
+	healthy := client
+	client = redis.NewClient(&redis.Options{Addr: fr.Addr(), PoolSize: 10, MaxRetries: -1, ReadTimeout: 2500 * time.Millisecond, WriteTimeout: 2500 * time.Millisecond})
+	for cl := range clients {
+		if cl >= 2 && !kit.Thorough() {
+			break
+		}
+		run(cl, "admitted-redis-stalled", nil, false)
+	}
+	fr.StallPublish.Store(false)
+	client = healthy
 	// let the fire-and-forget share goroutines finish (their error lines are part of what is scanned)
 	if left := kit.WaitNoGoroutineIn(60*time.Second, "lib.tryShareRegistrationOverAPI", "lib.handleConnectingTpReg", "connecting/dtls.(*Transport).Connect"); left != nil {
 		rec.Inconclusive("share goroutines still running at the end", len(left))
